@@ -858,3 +858,111 @@ func isReceiverValue(fn *ssa.Function, v ssa.Value) bool {
 	}
 	return false
 }
+
+// edgeFactsOn enumerates the branch conditions known to hold when control
+// moves along the edge p -> s: p's own branch (when p ends in an If with two
+// different successors) and everything edgeFacts knows on entry to p.
+func edgeFactsOn(p, s *ssa.BasicBlock, f func(cond ssa.Value, val bool) bool) {
+	if len(p.Instrs) > 0 {
+		if iff, ok := p.Instrs[len(p.Instrs)-1].(*ssa.If); ok && p.Succs[0] != p.Succs[1] {
+			if p.Succs[0] == s {
+				if !f(iff.Cond, true) {
+					return
+				}
+			} else if p.Succs[1] == s {
+				if !f(iff.Cond, false) {
+					return
+				}
+			}
+		}
+	}
+	edgeFacts(p, f)
+}
+
+// normCmp presents (cond == val) as a comparison op(x, y) with the polarity
+// folded into the operator; ok is false when cond is not a comparison.
+func normCmp(cond ssa.Value, val bool) (op token.Token, x, y ssa.Value, ok bool) {
+	c, v := cond, val
+	for {
+		if u, isU := c.(*ssa.UnOp); isU && u.Op == token.NOT {
+			c, v = u.X, !v
+			continue
+		}
+		break
+	}
+	bo, isB := c.(*ssa.BinOp)
+	if !isB {
+		return 0, nil, nil, false
+	}
+	op = bo.Op
+	if !v {
+		switch op {
+		case token.LSS:
+			op = token.GEQ
+		case token.LEQ:
+			op = token.GTR
+		case token.GTR:
+			op = token.LEQ
+		case token.GEQ:
+			op = token.LSS
+		case token.EQL:
+			op = token.NEQ
+		case token.NEQ:
+			op = token.EQL
+		default:
+			return 0, nil, nil, false
+		}
+	}
+	return op, bo.X, bo.Y, true
+}
+
+// intUpperBound: does op(x, y) with x the subject imply subject <= k (for
+// integer subject)?  Returns the bound.
+func cmpUpperBound(op token.Token, x, y ssa.Value, subject func(ssa.Value) bool) (int64, bool) {
+	if subject(x) {
+		if k, ok := constInt(y); ok {
+			switch op {
+			case token.LSS:
+				return k - 1, true
+			case token.LEQ, token.EQL:
+				return k, true
+			}
+		}
+	}
+	if subject(y) {
+		if k, ok := constInt(x); ok {
+			switch op {
+			case token.GTR:
+				return k - 1, true
+			case token.GEQ, token.EQL:
+				return k, true
+			}
+		}
+	}
+	return 0, false
+}
+
+// cmpLowerBound: op(x, y) implies subject >= k.
+func cmpLowerBound(op token.Token, x, y ssa.Value, subject func(ssa.Value) bool) (int64, bool) {
+	if subject(x) {
+		if k, ok := constInt(y); ok {
+			switch op {
+			case token.GTR:
+				return k + 1, true
+			case token.GEQ, token.EQL:
+				return k, true
+			}
+		}
+	}
+	if subject(y) {
+		if k, ok := constInt(x); ok {
+			switch op {
+			case token.LSS:
+				return k + 1, true
+			case token.LEQ, token.EQL:
+				return k, true
+			}
+		}
+	}
+	return 0, false
+}
